@@ -22,7 +22,8 @@ U = {'url1': 'https://sp1.verif.example/acs/one', 'url2': 'https://sp1.verif.exa
      'url1-case': 'https://SP1.verif.example/acs/one', 'url1-slash': 'https://sp1.verif.example/acs/one/',
      'url1-query': 'https://sp1.verif.example/acs/one?x=1', 'url1-port': 'https://sp1.verif.example:8443/acs/one',
      'url1-prefix': 'https://sp1.verif.example/acs/on', 'url1-parent': 'https://sp1.verif.example/acs/',
-     'url1-pct': 'https://sp1.verif.example/%61cs/one', 'unregistered': 'https://evil.example/acs'}
+     'url1-pct': 'https://sp1.verif.example/%61cs/one', 'url1-http': 'http://sp1.verif.example/acs/one',
+     'url1-noscheme': 'sp1.verif.example/acs/one', 'unregistered': 'https://evil.example/acs'}
 UREV = dict((v, k) for k, v in U.items())
 ACS = {'L1': [('POST', 'url1', 1)], 'L2': [('POST', 'url1', 1), ('POST', 'url2', 2), ('Redirect', 'url3', 3)],
        'L3': [('Redirect', 'url3', 1)], 'L4': [('Artifact', 'url4', 2), ('POST', 'url1', 1)]}
